@@ -585,15 +585,35 @@ func (propC01) Run(scI interface{}) (o *Outcome) {
 					fmt.Sprintf("op #%d parse engine %d\n second render: %s\n fresh engine:  %s", oi, op.E, got2, want))
 			}
 		case "compile":
+			// every template of the program is compiled and serialised first (all byte slices kept), then all of them
+			// are handed to the other engine; what that engine must hold afterwards is what the SOURCE engine holds now
 			dst := engs[(op.E+1)%len(engs)]
-			ct, err := ce.e.CompileTemplate(pr.Main)
-			if err == nil {
+			type shipped struct {
+				name string
+				data []byte
+			}
+			var all []shipped
+			for _, t := range pr.Templates {
+				want, known := ce.cur[t.Name]
+				if !known {
+					continue
+				}
+				if _, err := twig.New().ParseTemplate(want); err != nil {
+					continue
+				}
+				ct, err := ce.e.CompileTemplate(t.Name)
+				if err != nil {
+					continue
+				}
 				if data, err := twig.SerializeCompiledTemplate(ct); err == nil {
-					if dst.e.LoadFromCompiledData(data) == nil {
-						dst.cur[ct.Name] = ct.Source
-						if !sc.RegOnly {
-							dst.loader.SetTemplate(ct.Name, ct.Source)
-						}
+					all = append(all, shipped{t.Name, data})
+				}
+			}
+			for _, sh := range all {
+				if dst.e.LoadFromCompiledData(sh.data) == nil {
+					dst.cur[sh.name] = ce.cur[sh.name]
+					if !sc.RegOnly {
+						dst.loader.SetTemplate(sh.name, ce.cur[sh.name])
 					}
 				}
 			}
